@@ -198,6 +198,9 @@ func (v *VerifTrack) Keyframes() int {
 
 func (v *VerifTrack) MapDump() string { return v.down.packetmap.VerifDump() }
 
+// MapShift: see packetmap.Map.VerifShift.
+func (v *VerifTrack) MapShift(dk, dpid uint16) bool { return v.down.packetmap.VerifShift(dk, dpid) }
+
 // SetRates2 fixes what the rate estimator returns, leaving the bitrate
 // limits alone.
 func (v *VerifTrack) SetRates2(rate uint32) { v.down.rate.VerifSetRate(rate, 0) }
